@@ -146,7 +146,9 @@ func (pr *Loader) findTableBuffer(s tableSection, dst []byte) ([]byte, error) {
 			dst = make([]byte, s.length)
 		}
 		dst = dst[0:s.length]
-		if _, err := pr.file.ReadAt(dst, int64(s.offset)); err != nil {
+		// io.ReaderAt may return io.EOF along with a complete read
+		// ending at the end of the file (always, for an empty table).
+		if n, err := pr.file.ReadAt(dst, int64(s.offset)); err != nil && !(err == io.EOF && n == len(dst)) {
 			return nil, err
 		}
 	}
